@@ -20,10 +20,20 @@ import (
 type FakeLnd struct {
 	lnrpc.LightningClient
 	Inv *Invoices
+	// OnPay: see FakeCln.OnPay
+	OnPay func() (fail bool)
 
 	mu    sync.Mutex
 	sends []*routerrpc.SendPaymentRequest
 	other []string
+	seen  int
+}
+
+// Seen: number of requests of any kind since Reset.
+func (l *FakeLnd) Seen() int {
+	l.mu.Lock()
+	defer l.mu.Unlock()
+	return l.seen + len(l.sends) + len(l.other)
 }
 
 type FakeRouter struct {
@@ -38,11 +48,14 @@ func NewFakeLnd(inv *Invoices) (*FakeLnd, *FakeRouter) {
 
 func (l *FakeLnd) Reset() {
 	l.mu.Lock()
-	l.sends, l.other = nil, nil
+	l.sends, l.other, l.seen = nil, nil, 0
 	l.mu.Unlock()
 }
 
 func (l *FakeLnd) DecodePayReq(ctx context.Context, in *lnrpc.PayReqString, _ ...grpc.CallOption) (*lnrpc.PayReq, error) {
+	l.mu.Lock()
+	l.seen++
+	l.mu.Unlock()
 	iv := l.Inv.Get(in.PayReq)
 	if iv == nil {
 		return nil, errors.New("unknown invoice")
@@ -92,8 +105,8 @@ func (r *FakeRouter) SendPaymentV2(ctx context.Context, in *routerrpc.SendPaymen
 	r.L.sends = append(r.L.sends, proto.Clone(in).(*routerrpc.SendPaymentRequest))
 	r.L.mu.Unlock()
 	iv := r.L.Inv.Get(in.PaymentRequest)
-	if iv == nil {
-		return &payStream{p: &lnrpc.Payment{Status: lnrpc.Payment_FAILED, FailureReason: lnrpc.PaymentFailureReason_FAILURE_REASON_ERROR}}, nil
+	if iv == nil || (r.L.OnPay != nil && r.L.OnPay()) {
+		return &payStream{p: &lnrpc.Payment{Status: lnrpc.Payment_FAILED, FailureReason: lnrpc.PaymentFailureReason_FAILURE_REASON_NO_ROUTE}}, nil
 	}
 	return &payStream{p: &lnrpc.Payment{Status: lnrpc.Payment_SUCCEEDED, PaymentPreimage: iv.Preimage, PaymentHash: iv.Hash}}, nil
 }
